@@ -85,6 +85,10 @@ type Case struct {
 	Off     int    `json:"off,omitempty"`     // every packet buffer handed to the code starts at an address that is Off mod 16
 	Windows []int  `json:"windows,omitempty"` // kind "period": Msgs[0] is the probe; Windows[i] filler packets are processed between probe i and probe i+1
 	Seed    uint64 `json:"seed,omitempty"`    // kind "period": seed of the filler packets
+	// second round (legs2.go), kind "session"
+	Ctor    string `json:"ctor,omitempty"`    // "" = the factory NewCrypt | "direct" = the public constructor the name stands for (NewAESCFB, NewSM4, ...) with the key prefix the factory passes
+	KeyLife string `json:"keylife,omitempty"` // what the CALLER does to the key buffer it handed in: wipe|next|flip + 0 (before the first packet) | 1 (after the first packet)
+	Shared  bool   `json:"shared,omitempty"`  // sender, receiver and every other instance of the session are built from ONE key slice and ONE iv slice
 }
 
 func unhex(s string) []byte {
@@ -278,17 +282,19 @@ func runSession(r *hxlib.Run, c Case, model bool) {
 	kn := keyName(c.Name)
 	key, iv := unhex(c.Key), unhex(c.IV)
 	var enc, dec xc.BlockCryptor
+	note := lifeNote(&c, key)  // legs2.go: " [built by …; the caller …; the key is the text …]" or ""
+	lc := newLife(&c, key, iv) // legs2.go: constructor choice and the life of the caller's key buffer (plain NewCrypt on private copies when the case says nothing)
 	if p := hxlib.Guard(func() {
-		enc = xc.NewCrypt(c.Name, clone(key), clone(iv))
-		dec = xc.NewCrypt(c.Name, clone(key), clone(iv))
+		enc = lc.build(0)
+		dec = lc.build(1)
 	}); p != "" {
-		r.Fail("factory-panic:"+kn, fmt.Sprintf("NewCrypt(%q, %d-byte key, %d-byte iv) panics: %s", c.Name, len(key), len(iv), p), c)
+		r.Fail("factory-panic:"+kn, fmt.Sprintf("%s(%q, %d-byte key, %d-byte iv) panics: %s", lc.ctorName(), c.Name, len(key), len(iv), p), c)
 		return
 	}
 	// what an instance that has never seen another packet does
 	fresh := func(decrypt bool, b []byte) (out []byte) {
 		hxlib.Guard(func() {
-			f := xc.NewCrypt(c.Name, clone(key), clone(iv))
+			f := lc.build(2)
 			if decrypt {
 				out = f.Decrypt(place(b, c.Off))
 			} else {
@@ -305,6 +311,9 @@ func runSession(r *hxlib.Run, c Case, model bool) {
 		return ks
 	}
 	cts := make([][]byte, len(c.Msgs))
+	wants := make([][]byte, len(c.Msgs))
+	ctOK := make([]bool, len(c.Msgs)) // the ciphertext was the stock library's at the moment Encrypt returned it
+	var held [][2][]byte              // legs2: (slice returned by Decrypt, the original packet)
 	n := 1
 	for i, mh := range c.Msgs {
 		m := unhex(mh)
@@ -314,7 +323,9 @@ func runSession(r *hxlib.Run, c Case, model bool) {
 			return
 		}
 		cts[i] = ct
+		lc.used(0)
 		want, bs := reference(ci, key, iv, m)
+		wants[i] = want
 		n = bs
 		r.Count("cipher:" + kn + ":" + lenClass(len(m), bs))
 		if len(m)%(8*bs) != 0 || len(m) < bs || len(iv) > bs {
@@ -331,6 +342,7 @@ func runSession(r *hxlib.Run, c Case, model bool) {
 			continue
 		}
 		if bytes.Equal(ct, want) {
+			ctOK[i] = true
 			continue
 		}
 		alone := ct
@@ -342,9 +354,9 @@ func runSession(r *hxlib.Run, c Case, model bool) {
 		}
 		if !bytes.Equal(alone, want) {
 			if ci.block != nil {
-				r.Fail("interop:"+kn, fmt.Sprintf("%s ciphertext of a %d-byte packet (iv %d bytes) differs at byte %d from crypto/cipher CFB with the same key and iv[:%d]", kn, len(m), len(iv), firstDiff(alone, want), bs), c)
+				r.Fail("interop:"+kn, fmt.Sprintf("%s ciphertext of a %d-byte packet (iv %d bytes) differs at byte %d from crypto/cipher CFB with the same key and iv[:%d]%s", kn, len(m), len(iv), firstDiff(alone, want), bs, note), c)
 			} else {
-				r.Fail("stream-reference:"+kn, fmt.Sprintf("%s output for a %d-byte packet differs at byte %d from the reference", kn, len(m), firstDiff(alone, want)), c)
+				r.Fail("stream-reference:"+kn, fmt.Sprintf("%s output for a %d-byte packet differs at byte %d from the reference%s", kn, len(m), firstDiff(alone, want), note), c)
 			}
 		}
 	}
@@ -371,6 +383,10 @@ func runSession(r *hxlib.Run, c Case, model bool) {
 			r.Fail("panic:"+kn, fmt.Sprintf("%s Decrypt of a %d-byte packet panics: %s", kn, len(m), p), c)
 			return
 		}
+		lc.used(1)
+		if bytes.Equal(pt, m) {
+			held = append(held, [2][]byte{pt, m})
+		}
 		if model && ci.name == "salsa20" {
 			r.Op(fmt.Sprintf("salsad ks=%s m=%s", hxlib.Hex(salsaKS(len(m))), hxlib.Hex(cts[idx])), "ok out="+hxlib.Hex(pt))
 		}
@@ -391,8 +407,19 @@ func runSession(r *hxlib.Run, c Case, model bool) {
 			if len(alone) != len(m) {
 				r.Fail("roundtrip:"+kn, fmt.Sprintf("%s Decrypt returns %d bytes for a %d-byte packet", kn, len(alone), len(m)), c)
 			} else {
-				r.Fail("roundtrip:"+kn, fmt.Sprintf("%s Decrypt(Encrypt(m)) differs from m at byte %d of %d (iv %d bytes)", kn, firstDiff(alone, m), len(m), len(iv)), c)
+				r.Fail("roundtrip:"+kn, fmt.Sprintf("%s Decrypt(Encrypt(m)) differs from m at byte %d of %d (iv %d bytes)%s", kn, firstDiff(alone, m), len(m), len(iv), note), c)
 			}
+		}
+	}
+	// held outputs: the slices Encrypt / Decrypt returned earlier in the session still hold what they held then
+	for i, ct := range cts {
+		if ctOK[i] && !bytes.Equal(ct, wants[i]) {
+			r.Fail("held:"+kn, fmt.Sprintf("%s: the ciphertext returned for packet %d (%d bytes) was the stock library's when it was returned and differs at byte %d at the end of the session (%d packets)", kn, i, len(ct), firstDiff(ct, wants[i]), len(c.Msgs)), c)
+		}
+	}
+	for _, h := range held {
+		if !bytes.Equal(h[0], h[1]) {
+			r.Fail("held:"+kn, fmt.Sprintf("%s: a %d-byte plaintext returned by Decrypt was the original packet when it was returned and differs at byte %d at the end of the session", kn, len(h[1]), firstDiff(h[0], h[1])), c)
 		}
 	}
 	// a nil packet is an empty packet
@@ -407,7 +434,7 @@ func runSession(r *hxlib.Run, c Case, model bool) {
 		r.Fail("panic:"+kn, fmt.Sprintf("%s on a nil packet panics: %s", kn, p), c)
 	}
 	// a receiver built from the sender's accessors (what the codec tests do) is equally keyed as well
-	if len(c.Msgs) > 0 && cts[0] != nil {
+	if len(c.Msgs) > 0 && cts[0] != nil && c.KeyLife == "" { // (Key() hands out the caller's slice: not after the caller overwrote it)
 		m := unhex(c.Msgs[0])
 		if bytes.Equal(fresh(true, cts[0]), m) {
 			var pt []byte
@@ -523,6 +550,7 @@ func main() {
 	}
 	if os.Getenv("HX_LEGS_ONLY") != "" { // development: the legs of search.go alone
 		legs(r)
+		legs2(r)
 		return
 	}
 
@@ -636,5 +664,6 @@ func main() {
 	if r.Thorough() {
 		r.Note("every packet length 0..4096 was run for every cipher name (3 random keys/IVs each) and for the four unrolled cores with the toy block")
 	}
-	legs(r) // search.go (after the generators, so that the smallest failing case of a kind is recorded first): cheap legs in every tier, the 10-60 s ones from thorough on, the rest with -search only
+	legs(r)  // search.go (after the generators, so that the smallest failing case of a kind is recorded first): cheap legs in every tier, the 10-60 s ones from thorough on, the rest with -search only
+	legs2(r) // legs2.go: second round (life of the caller's key buffer, text-shaped keys, every public constructor, held outputs)
 }
